@@ -538,6 +538,12 @@ class Sectionable(BaseObject):
 
             raise ValueError("Section named '%s' does not exist" % pathlist[0])
 
+        # A path may also end with a step to the Section itself or to its parent.
+        if pathlist[0] == ".":
+            return self
+        if pathlist[0] == ".." and self.parent is not None:
+            return self.parent
+
         return self._match_iterable(self.sections, pathlist[0])
 
     def find(self, key=None, type=None, findAll=False, include_subtype=False):
